@@ -91,6 +91,23 @@ def _assign_nodes(f, field, value=None):
     return out
 
 
+def _reset_nodes(fb, f, key):
+    """statements of f that empty the memo key: directly, or by calling a helper on this object that empties it on every path"""
+    out = _assign_nodes(f, key, '""')
+    for c in f.calls():
+        if "obj" in c and strip(f.obj(c))["k"] != "CXXThisExpr":
+            continue
+        g = fb.fns.get(c["callee"].get("key"))
+        if g is None or g.body is None or g.key == f.key:
+            continue
+        rs = _assign_nodes(g, key, '""')
+        if rs:
+            tb = {g.cfg.stmt_block(r) for r in rs}
+            if not e1.path_exists(g.cfg, g.cfg.entry, g.cfg.exit, avoid_blocks=tb):
+                out.append(c)
+    return out
+
+
 def _covers(cfg, f, through_nodes, target_nodes):
     """every entry->exit path that passes a block of through_nodes also passes a block of target_nodes"""
     tb = {cfg.stmt_block(n) for n in target_nodes}
@@ -126,7 +143,7 @@ def _d1(chk, fb):
             if kern and _always_throws(fb, kern[0]):
                 chk.proved("D1", f.key, "memo-key-reset:" + key, f.loc(), "exempt: %s always throws (derivative not offered by this class)" % kern[0].qname)
                 continue
-            resets = _assign_nodes(f, key, '""')
+            resets = _reset_nodes(fb, f, key)
             if resets and _covers(cfg, f, recompute, resets):
                 chk.proved("D1", f.key, "memo-key-reset:" + key, f.loc(resets[0]), "%s reset on every path that recomputes" % key)
             else:
@@ -696,7 +713,7 @@ def _d12(chk, fb):
                 if kern and _always_throws(fb, kern[0]):
                     chk.proved("D12", f.key, "memo-key-reset:" + key, f.loc(), "exempt: %s always throws (derivative not offered by this class)" % kern[0].qname)
                     continue
-                resets = _assign_nodes(f, key, '""')
+                resets = _reset_nodes(fb, f, key)
                 if resets and _covers(cfg, f, recompute, resets):
                     chk.proved("D12", f.key, "memo-key-reset:" + key, f.loc(resets[0]), "%s reset on every path that re-runs the forward pass" % key)
                 else:
@@ -704,6 +721,13 @@ def _d12(chk, fb):
                                 "%s re-runs the forward pass but leaves the memo key '%s' of %s in place: a derivative requested again for the same variable is served from the tables computed before the call" % (f.name, key, getter.qname),
                                 witness={"history": "getFirstOrderDerivative(v); %s(...); getFirstOrderDerivative(v)  -> the second answer equals the first although the likelihood changed" % f.name})
     chk.floor("D12", "methods other than fireParameterChanged that re-run the forward pass", n, 3)
+
+
+def _outer_kind(f, x):
+    p = f.parent.get(x["id"])
+    while p is not None and p["k"] in ("ImplicitCastExpr", "ParenExpr", "ExprWithCleanups", "MaterializeTemporaryExpr"):
+        p = f.parent.get(p["id"])
+    return p["k"] if p is not None else None
 
 
 def _d13(chk, fb):
@@ -740,6 +764,9 @@ def _d13(chk, fb):
                     (ctor if f.name == short else later).append((f, w))
         if later:
             chk.proved("D13", g.key, "stationary-vector-recomputed:" + m, later[0][0].loc(later[0][1]), "'%s' is stored by %s, which runs after updates" % (m, later[0][0].name))
+        elif ctor and any(x["k"] == "MemberExpr" and x["member"]["name"] == m and _outer_kind(f2, x) != "ReturnStmt"
+                          for f2 in fb.concrete_fns() if f2.cls == cls and f2.body is not None and f2.name != short for x in f2.all_nodes()):
+            chk.unknown("D13", g.key, "stationary-vector-recomputed:" + m, g.loc(), "'%s' is used outside the constructor in a form that is not read as a store: not decided" % m)
         elif ctor:
             chk.refuted("D13", g.key, "stationary-vector-recomputed:" + m, g.loc(),
                         "getEquilibriumFrequencies serves '%s', which only the constructor of %s stores (%s): after any parameter update the vector is not the stationary distribution of the current matrix"
